@@ -223,11 +223,56 @@ fn valid_requests(r: &mut Rng, init: &[(String, Vec<u8>)], pool: &[Vec<u8>]) -> 
     v
 }
 
+fn c12_pool() -> Vec<Vec<u8>> {
+    vec![b"".to_vec(), b"A".to_vec(), b"BB".to_vec(), b"hello world".to_vec(), vec![0x58; 300], (0..=255u8).collect(),
+        // larger than the server's 8 KiB stdin buffer: a refused or mismatching content must still be consumed in full
+        (0..20000usize).map(|j| (j % 253) as u8).collect()]
+}
+
+/// When the whole input after the magic is a sequence of well-framed, decodable requests with complete contents
+/// (optionally ended by Bye): the byte range of each request (frame + content) and whether it is Hello / Bye.
+fn segments(input: &[u8]) -> Option<Vec<(usize, usize, u8)>> {
+    if input.len() < 6 || &input[..6] != MAGIC {
+        return None;
+    }
+    let mut segs = vec![];
+    let mut pos = 6;
+    while pos < input.len() {
+        if input.len() < pos + 4 {
+            return None;
+        }
+        let len = u32::from_be_bytes([input[pos], input[pos + 1], input[pos + 2], input[pos + 3]]) as usize;
+        if len > MAX_FRAME || input.len() < pos + 4 + len {
+            return None;
+        }
+        let mut cur = std::io::Cursor::new(&input[pos..pos + 4 + len]);
+        let r: std::io::Result<Option<Request>> = catch(std::panic::AssertUnwindSafe(|| wire::read_frame(&mut cur))).unwrap_or_else(|_| Err(std::io::Error::new(std::io::ErrorKind::Other, "panic")));
+        let start = pos;
+        pos += 4 + len;
+        match r {
+            Ok(Some(Request::Bye)) => {
+                segs.push((start, pos, 2));
+                return if pos == input.len() { Some(segs) } else { None };
+            }
+            Ok(Some(Request::Put { len, .. })) => {
+                if (len as usize) > input.len() - pos {
+                    return None;
+                }
+                pos += len as usize;
+                segs.push((start, pos, 0));
+            }
+            Ok(Some(Request::Hello { .. })) => segs.push((start, pos, 1)),
+            Ok(Some(_)) => segs.push((start, pos, 0)),
+            _ => return None,
+        }
+    }
+    Some(segs)
+}
+
 fn gen_sessions(seed: u64, tier: &str) -> Vec<Session> {
     let mut r = Rng::new(seed ^ 0xC12);
     let n = if tier == "thorough" { 3000 } else { 260 };
-    let pool: Vec<Vec<u8>> = vec![b"".to_vec(), b"A".to_vec(), b"BB".to_vec(), b"hello world".to_vec(), vec![0x58; 300], (0..=255u8).collect(),
-        (0..20000usize).map(|j| (j % 253) as u8).collect()]; // larger than the server's 8 KiB stdin buffer: a refused or mismatching content must still be consumed in full
+    let pool = c12_pool();
     let mut out = vec![];
     for _ in 0..n {
         let mut init = vec![];
@@ -247,10 +292,18 @@ fn gen_sessions(seed: u64, tier: &str) -> Vec<Session> {
                 if r.chance(1, 2) { input.extend(frame(&Request::Bye)); }
             }
             2 => {
-                class = "truncated";
-                for f in &frames { input.extend(f); }
-                let cut = r.below(input.len() as u64 + 1) as usize;
-                input.truncate(cut);
+                // closed at a uniformly random offset, or (half of the time) 1-3 bytes into a length prefix / at a frame
+                // boundary / inside the magic: the places where the reader's EOF handling differs
+                let mut starts = vec![];
+                for f in &frames { starts.push(input.len()); input.extend(f); }
+                let cut = if !starts.is_empty() && r.chance(1, 2) {
+                    class = "truncated-at-prefix";
+                    *r.pick(&starts) + r.below(5) as usize
+                } else {
+                    class = "truncated";
+                    r.below(input.len() as u64 + 1) as usize
+                };
+                input.truncate(cut.min(input.len()));
             }
             3 => {
                 class = "random-after-magic";
@@ -362,7 +415,7 @@ pub fn main_c12(a: Args) -> i32 {
         for (_, c) in &s.init {
             k.add(c);
         }
-        for c in [b"".to_vec(), b"A".to_vec(), b"BB".to_vec(), b"hello world".to_vec(), vec![0x58; 300], (0..=255u8).collect::<Vec<u8>>()] {
+        for c in c12_pool() {
             k.add(&c);
         }
         let dec = decode_table(&s.input, &mut k);
@@ -398,6 +451,43 @@ pub fn main_c12(a: Args) -> i32 {
         if (s.input.len() < 6 || &s.input[..6] != MAGIC) && (before != after || exit == "EXIT0" || !run.stdout.is_empty()) {
             nfail += 1;
             out.line("specfail.txt", &format!("{} C12 bad prologue not rejected without effect: exit {} out {} bytes", id, exit, run.stdout.len()));
+        }
+        // "in step" on the implementation alone: after the first error reply to a well-framed request, the later requests
+        // get the replies (and leave the tree) they get in a fresh session started on the tree as it was at that point
+        if let Some(segs) = segments(&s.input) {
+            let (raw, _) = parse_replies(&run.stdout);
+            let nreq = segs.iter().filter(|x| x.2 != 2).count();
+            if exit == "EXIT0" && raw.len() != nreq {
+                nfail += 1;
+                out.line("specfail.txt", &format!("{} C12 out of step: {} well-formed requests but {} replies (class {})", id, nreq, raw.len(), s.class));
+            } else if let Some(i) = raw.iter().position(|x| x.starts_with("Error")) {
+                if exit == "EXIT0" && i + 1 < nreq {
+                    // tree after request i
+                    write_tree(&root, &s.init);
+                    let prefix = s.input[..segs[i].1].to_vec();
+                    let _ = run_serve(&copia, &root, &prefix, &[]);
+                    let mut fresh = MAGIC.to_vec();
+                    let hello = segs[0].2 == 1 && i >= 1;
+                    if segs[0].2 == 1 {
+                        fresh.extend(&s.input[segs[0].0..segs[0].1]);
+                    }
+                    fresh.extend(&s.input[segs[i + 1].0..]);
+                    let run2 = run_serve(&copia, &root, &fresh, &[]);
+                    let (raw2, _) = parse_replies(&run2.stdout);
+                    let skip = if segs[0].2 == 1 { 1 } else { 0 };
+                    let _ = hello;
+                    let tail2: Vec<String> = raw2.iter().skip(skip).cloned().collect();
+                    let tail1: Vec<String> = raw.iter().skip(i + 1).cloned().collect();
+                    let after2 = tree_string(&root);
+                    if i == 0 && segs[0].2 == 1 {
+                        // the error reply was to Hello itself: nothing to compare
+                    } else if tail1 != tail2 || after2 != after {
+                        nfail += 1;
+                        out.line("specfail.txt", &format!("{} C12 not in step after the error reply to request {}: the later requests got {:?} / tree {} but a fresh session on the same tree gives {:?} / tree {} (class {})", id, i, tail1.iter().map(|x| x.chars().take(60).collect::<String>()).collect::<Vec<_>>(), after.chars().take(80).collect::<String>(), tail2.iter().map(|x| x.chars().take(60).collect::<String>()).collect::<Vec<_>>(), after2.chars().take(80).collect::<String>(), s.class));
+                    }
+                    out.count("in_step_differentials");
+                }
+            }
         }
         if id % 41 == 5 && s.input.len() < 200 {
             out.sample(format!("{}: IN={} -> {} R={}", s.class, hex(&s.input), exit, rs.join(",")));
